@@ -202,7 +202,9 @@ def case_computed(draw):
 
 
 FIND_POOL = [('a', 'b'), ('.', '-'), (r'\d+', 'N'), ('^x', 'y'), (r'(\w)(\w)', r'\2\1'), ('é', 'e'), ('"', "'"),
-             (',', ';'), ('', '_'), ('a|b', 'c'), (r'\s+', ' '), ('None', 'x')]
+             (',', ';'), ('', '_'), ('a|b', 'c'), (r'\s+', ' '), ('None', 'x'),
+             # replacement templates (whole-match reference, escapes) with a find expression that has no group
+             ('a', r'\g<0>\g<0>'), (r'\d+', r'<\g<0>>'), ('é', r'\\'), ('x', r'\n'), ('b', r'\t-'), (r'[A-Z]', r'_\g<0>')]
 
 
 @st.composite
